@@ -908,9 +908,19 @@ class TeX(object):
             if t.catcode != Token.CC_ESCAPE and \
                (t == begin or str(t) == str(begin)):
                 level = 1
+                # Delimiters inside a brace group do not count
+                brace = 0
                 for t in tokens:
                     source.append(t)
-                    if t.catcode != Token.CC_ESCAPE and \
+                    if t.catcode == Token.CC_BGROUP:
+                        brace += 1
+                        toks.append(t)
+                    elif t.catcode == Token.CC_EGROUP:
+                        brace -= 1
+                        toks.append(t)
+                    elif brace > 0:
+                        toks.append(t)
+                    elif t.catcode != Token.CC_ESCAPE and \
                        (t == begin or str(t) == str(begin)):
                         toks.append(t)
                         level += 1
